@@ -273,6 +273,10 @@ def _read_wav(path):
         return (fp.getframerate(), fp.getsampwidth(), fp.getnchannels(), fp.readframes(-1))
 
 
+def _short(ids):
+    return repr(ids) if len(ids) <= 8 else "%r... (%d ids, last %r)" % (ids[:6], len(ids), ids[-1])
+
+
 def check(ex, ctx):
     """The oracle for one finished execution; returns a complaint or None."""
     cfg = ctx.cfg
@@ -307,8 +311,8 @@ def check(ex, ctx):
             dets, what, [(i, s, e, du) for i, d, s, e, du in exp])
     for n, r in enumerate(ctx.recs):
         if r.log != want:
-            return "observer #%d processed ids %r, split() of %s gives ids %r (or data/start differ)" % (
-                n, [x[0] for x in r.log], what, [x[0] for x in want])
+            return "observer #%d processed ids %s, split() of %s gives ids %s (or data/start differ)" % (
+                n, _short([x[0] for x in r.log]), what, _short([x[0] for x in want]))
     if ctx.printers:
         fmt = "{:.3f}".format
         lines = ["%d %s %s %s" % (i, fmt(s), fmt(e), fmt(du)) for i, d, s, e, du in exp]
@@ -375,12 +379,44 @@ def all_patterns(maxlen):
     return out
 
 
+def work_directed(task):
+    """Directed starvation schedules on a long stream (NOT exhaustive; complements the small-scope search
+    for capacity effects such as bounded queues or caches that need hundreds of pending messages)."""
+    cfg, K, I, mode, bound, cap = task[:6]
+    make = make_factory(cfg)
+    names = []
+    ex0, ctx0 = sched.run_once(make, [], K, I)
+    names = sorted(set(t.name for t in ex0.th))
+    cleanup(ctx0)
+    viol = []
+    runs = 0
+    outcomes = {}
+    for nm in names:
+        ex, ctx = sched.run_once(make, [], K, I, policy=sched.starve_policy(nm))
+        runs += 1
+        msg = check(ex, ctx)
+        outcomes["starve " + nm] = "%s, %d steps" % (ex.outcome, len(ex.trace))
+        cleanup(ctx)
+        if msg:
+            key = "cfg=%s directed=starve:%s" % (cfg_str(cfg), nm)
+            viol.append((key, msg, {"kind": "sched", "cfg": cfg, "timeouts": K, "interrupts": I, "mode": mode,
+                                    "policy": nm, "schedule": []}))
+    cov = {"evaluations": runs, "directed_runs_not_exhaustive": runs, "states": 0, "transitions": 0,
+           "traces_validated_against_impl": runs, "distinct_nontrivial": runs,
+           "outcomes": {cfg_str(cfg) + "/directed": outcomes}}
+    return {"cov": cov, "viol": viol}
+
+
 def work(task):
     cfg, K, I, mode, bound, cap = task[:6]
+    if mode == "directed":
+        return work_directed(task)
     start_stack = task[6] if len(task) > 6 else None
     make = make_factory(cfg)
+    budget = SPLIT_BUDGET if start_stack is not None else None
     st = sched.explore(make, check, timeouts=K, interrupts=I, line_mode=(mode == "line"),
-                       preemption_bound=bound, max_executions=cap, cleanup=cleanup, start_stack=start_stack)
+                       preemption_bound=bound, max_executions=cap or budget, cleanup=cleanup, start_stack=start_stack,
+                       return_leftover=start_stack is not None)
     viol = []
     for trace, msg, labels in st.violations:
         nz = sum(1 for c in trace if c)
@@ -398,7 +434,13 @@ def work(task):
     if st.cap_hit:
         cov["caps_hit"] = [cfg_str(cfg) + ": " + st.cap_hit]
         cov["exhaustive"] = False
-    return {"cov": cov, "viol": viol}
+    out = {"cov": cov, "viol": viol}
+    if start_stack is not None and st.stack:
+        out["leftover"] = (task[:6], st.stack)  # handed back for redistribution (work sharing)
+    return out
+
+
+SPLIT_BUDGET = 250  # executions per split task before the remaining subtree is handed back
 
 
 def split_line_tasks(tasks, parts=24):
@@ -450,6 +492,8 @@ def plan(prop, tier):
         for p in (["AAA", "AAAA"] if quick else ["AAA", "AAAA", "AAAAA", "AAaAAA"]):
             for o in (["rec"], ["rec", "rec"]):
                 tasks.append((dict(kind="run", pattern=p, observers=o, split="s2"), 1 if len(o) > 1 else K, 0, "sync", None, None))
+        # directed starvation schedules on a long stream (300 detections): capacity effects
+        tasks.append((dict(kind="run", pattern="A" * 300, observers=["rec", "print"], split="s2"), 10 ** 6, 0, "directed", None, None))
         # line-level pass: the stand-in for a race detector
         for p in (["A", "AaA"] if quick else ["A", "AaA", "AAAA"]):
             tasks.append((dict(kind="run", pattern=p, observers=["rec"], split="s0"), 0, 0, "line", 1, None))
@@ -498,7 +542,7 @@ def plan(prop, tier):
                               0 if quick else 1, 0, "sync", None, None))
         # silence durations x file name templates
         for p in ["A", "AaA", "AaAaA"[:L]]:
-            for sil in (0, 0.1, 0.25):
+            for sil in (0, 0.1, 0.25, 0.16, 0.37):
                 for tpl in ("ev_{id}.wav", "ev_{id}_{start}_{end}.wav", "ev_{duration:.3f}_{id}.wav"):
                     tasks.append((dict(base, pattern=p, observers=["join", "regsave"], silence=sil, template=tpl),
                                   0, 0, "sync", None, None))
@@ -507,6 +551,8 @@ def plan(prop, tier):
             for c in (0.1, 1000):
                 tasks.append((dict(kind="run", pattern=p, observers=["join"], split="s1", saver=True, cache=c, sw=1, ch=2),
                               1, 0, "sync", None, None))
+        tasks.append((dict(base, pattern="Aa" * 150, observers=["join"], split="s2", saver=True, cache=0.5), 10 ** 6, 0, "directed", None, None))
+        tasks.append((dict(kind="stop", pattern="AaA", observers=["join"], split="s0", saver=True, cache=0.15), 0, 0, "sync", None, None))
         for p in (["AA"] if quick else ["AA", "AaA"]):
             tasks.append((dict(base, pattern=p, observers=[], saver=True, cache=0.1), 0, 0, "line", 2, None))
         tasks.append((dict(base, pattern="AAA", observers=[], saver=True, cache=0.15), 0, 0, "line", 1, None))
@@ -531,9 +577,18 @@ def run(prop, tier):
     rep.cov["bounds"] = {"configs": len(tasks)}
     tasks = split_line_tasks(tasks)
     # longest first so the pool drains evenly
-    tasks.sort(key=lambda t: -(len(t[0]["pattern"]) + 2 * len(t[0]["observers"]) + 3 * t[1] + (5 if t[3] == "line" else 0)))
-    for part in common.pmap(work, tasks):
-        rep.merge(part)
+    tasks.sort(key=lambda t: -(min(len(t[0]["pattern"]), 8) + 2 * len(t[0]["observers"]) + 3 * min(t[1], 3) + (5 if t[3] == "line" else 0)))
+    while tasks:
+        again = []
+        for part in common.pmap(work, tasks):
+            left = part.pop("leftover", None)
+            rep.merge(part)
+            if left:
+                base, stack = left
+                n = max(1, min(16, len(stack)))
+                for i in range(n):
+                    again.append(tuple(base) + (stack[i::n],))
+        tasks = again
     rep.assumptions += [
         "threads interact only through the interposed Queue/start/join operations; the line-level pass (every line of "
         "workers.py a scheduling point, <=1 or 2 preemptions) is the check on that assumption",
@@ -547,7 +602,8 @@ def replay(case):
     cfg = case["cfg"]
     make = make_factory(cfg)
     ex, ctx = sched.run_once(make, case["schedule"], case.get("timeouts", 0), case.get("interrupts", 0),
-                             case.get("mode") == "line", None)
+                             case.get("mode") == "line", None,
+                             policy=sched.starve_policy(case["policy"]) if case.get("policy") else None)
     msg = check(ex, ctx)
     cleanup(ctx)
     return msg
